@@ -30,15 +30,15 @@ def core():
         {'name': 'Spell', 'body': [F('id', 'short'), F('level', 'short')]},
         {'name': 'ServerSettings', 'body': [F('jail_map', 'short'), F('rescue_map', 'short'), F('rescue_coords', 'Coords'), F('light_guide_flood_rate', 'short'),
                                             F('guardian_flood_rate', 'short')]},
-        {'name': 'CharacterMapInfo', 'body': [
+        {'name': 'CharacterMapInfo', 'body': [CH(
             F('name', 'string'), BR, F('player_id', 'short'), F('map_id', 'short'), F('coords', 'BigCoords'), F('direction', 'Direction'),
             F('class_id', 'char'), F('guild_tag', 'string', length='3'), F('level', 'char'), F('gender', 'Gender'), F('sit_state', 'SitState'),
-            F('invisible', 'bool'), F('equipment', 'EquipmentPaperdoll')]},
-        {'name': 'OnlinePlayer', 'body': [F('name', 'string'), BR, F('title', 'string'), BR, F(None, 'char', '0'), F('level', 'char'), F('guild_tag', 'string', length='3', padded='true')]},
-        {'name': 'PlayersList', 'body': [L('players_count', 'short'), BR, A('players', 'OnlinePlayer', length='players_count', delimited='true')]},
-        {'name': 'NearbyInfo', 'body': [L('characters_count', 'char'), BR,
-                                        A('characters', 'CharacterMapInfo', length='characters_count', delimited='true'),
-                                        A('items', 'Item')]},
+            F('invisible', 'bool'), F('equipment', 'EquipmentPaperdoll'))]},
+        {'name': 'OnlinePlayer', 'body': [CH(F('name', 'string'), BR, F('title', 'string'), BR, F(None, 'char', '0'), F('level', 'char'), F('guild_tag', 'string', length='3', padded='true'))]},
+        {'name': 'PlayersList', 'body': [CH(L('players_count', 'short'), BR, A('players', 'OnlinePlayer', length='players_count', delimited='true'))]},
+        {'name': 'NearbyInfo', 'body': [CH(L('characters_count', 'char'), BR,
+                                           A('characters', 'CharacterMapInfo', length='characters_count', delimited='true'),
+                                           A('items', 'Item'))]},
     ]
     cl['packets'] += [
         {'family': 'Init', 'action': 'Init', 'body': [F('challenge', 'three'), F('version', 'Version'), F(None, 'char', '112'), L('hdid_length', 'char'),
